@@ -795,6 +795,11 @@ def _simplify(t) -> Term:
         return ("bool", t[1], tuple(_simplify(x) for x in t[2]))
     if t[:1] == ("cmp",):
         op, a, b = t[1], t[2], t[3]
+        # `(x in s) is True` is `x in s`: membership / identity tests always yield a bool
+        if op in ("is", "is not", "==", "!=") and b in (("const", "True"), ("const", "False")) and a[:1] == ("cmp",) \
+                and a[1] in ("in", "not in", "is", "is not"):
+            pos = (b == ("const", "True")) == (op in ("is", "=="))
+            return _simplify(a) if pos else _simplify(neg(a))
         # len(x) <op> 0
         if is_call_of(a, ("glob", "len")) and b[:1] == ("const",) and b[1] in ("0", "1"):
             x = a[2][0] if a[2] else None
